@@ -160,3 +160,7 @@ pub trait ServerSocket {
         to: Self::Addr,
     ) -> impl Future<Output = Result<(), Self::Error>>;
 }
+
+#[cfg(feature = "pendulum_project_ntpd_rs_verif")]
+#[path = "/verif/hooks/statime-csptp/server.rs"]
+pub mod vh_server;
